@@ -143,6 +143,17 @@ def bucketing(name, n, topsize, topbits=32, eps=1, tiers=Q, timeout=1800, mem_gb
                        'sdsl::memory_monitor::record stubbed (accounting only), huge-page allocator paths asserted unreachable' % (n, eps, topsize, topbits))
 
 
+def bucketing_fixed(name, kt, data, topsize, topbits, eps=1, tiers=Q, timeout=1200, mem_gb=14):
+    n = len(data)
+    j = bucketing(name, n, topsize, topbits=topbits, eps=eps, tiers=tiers, timeout=timeout, mem_gb=mem_gb)
+    j['defs'].update(KT[kt]); j['defs'].update(FIXED_DATA=','.join('%dULL' % x for x in data), VERIF_VEC_CAP=n + 8)
+    j['narrow'] = 0; j['profile_unwind'] = 2 * n + 80; j['refine_rounds'] = 12
+    j['cbmc_extra'] = ['--max-field-sensitivity-array-size', str(max(n, topsize) + 16)]
+    j['bounds'] = ('ONE concrete sorted data set of %d %s keys %s and EVERY non-reserved query key (symbolic); Epsilon=%d, TopLevelSize=%d, TopLevelBitSize=%d%s; sdsl::int_vector is the real code; '
+                   'decides the property for this data set only' % (n, kt, data if n <= 12 else '(listed in the job definition)', eps, topsize, topbits, ' (dynamic cell width)' if topbits == 0 else ''))
+    return j
+
+
 def sdslidx(name, unit, ufunc, kt, n, eps=1, epsrec=1, tiers=Q, timeout=1800, mem_gb=14):
     d = dict(KT[kt]); d.update(N=n, EPS=eps, EPSREC=epsrec, UFUNC=ufunc, NO_EMPTY_RANGES=1, VERIF_VEC_CAP=n + 6)
     return dict(name=name, unit=unit, harness='h_bucketing.c', defs=d, narrow=0, roots=['@' + ufunc], timeout=timeout, tiers=tiers, mem_gb=mem_gb,
@@ -307,9 +318,26 @@ PROPS = {
                 explanation='Data whose last key is the reserved value is rejected with std::invalid_argument, and only such data (e2e jobs with the sentinel allowed); add_point with a non-increasing key throws logic_error.'),
 }
 # fixed-data jobs: one concrete data set, every query symbolic
-JOBS['C07'] += [e2e_fixed('e2e_fixed_u32_n24_e1_r1_s1', 'uint32_t', 24, 1, 1, 1, 'clustered')]
-JOBS['C07'] += [e2e_fixed('e2e_fixed_u64_n113_e1_r26_groups', 'uint64_t', 113, 1, 26, 1, 'groups', flt='double', tiers=T, timeout=1800),
-                e2e_fixed('e2e_symlast_u32_n24_e1_r1_s1', 'uint32_t', 24, 1, 1, 1, 'clustered', tiers=T, timeout=1800, extra=dict(SYM_LAST=1))]
+# dynamic cell width: one data set per segments.size() in 2..9 (found with the native library: first (n, shape, seed) giving that many segments),
+# so that the width computation is exercised on both sides of every power of two up to 8
+BUCKET_SEGSETS = {2: (2, 'clustered', 1), 3: (4, 'uniform', 1), 4: (9, 'clustered', 2), 5: (15, 'clustered', 3), 7: (24, 'clustered', 3), 8: (32, 'clustered', 3), 9: (34, 'clustered', 1)}
+JOBS['C09'] += [bucketing_fixed('bucket_fixed_u32_dyn_segs%d' % s, 'uint32_t', fixed_data('uint32_t', n, seed, shape), 4 if s < 6 else 6, 0, tiers=Q if s in (2, 4, 8) else T)
+                for s, (n, shape, seed) in sorted(BUCKET_SEGSETS.items())]
+JOBS['C09'] += [bucketing_fixed('bucket_fixed_u8_dyn_n2_t4', 'uint8_t', [192, 193], 4, 0, tiers=T),     # the input of seeded change s08_c09 (kept as a regression input)
+                bucketing_fixed('bucket_fixed_u32_dyn_n24_t6', 'uint32_t', fixed_data('uint32_t', 24, 6, 'clustered'), 6, 0),
+                bucketing_fixed('bucket_fixed_u32_w32_n40_t16', 'uint32_t', fixed_data('uint32_t', 40, 8, 'steps'), 16, 32, tiers=T),
+                bucketing_fixed('bucket_fixed_u32_dyn_n40_t7', 'uint32_t', fixed_data('uint32_t', 40, 4, 'clustered'), 7, 0, tiers=T)]
+# (data sets picked for their shape with the native library: three levels with 6-8 / 2 / 1 segments, i.e. a routed level with two segments)
+FX_A = e2e_fixed('e2e_fixed_u32_n24_e1_r1_s6', 'uint32_t', 24, 1, 1, 6, 'clustered')
+FX_B = e2e_fixed('e2e_fixed_u32_n40_e1_r1_steps8', 'uint32_t', 40, 1, 1, 8, 'steps')
+FX_C = e2e_fixed('e2e_fixed_u32_n40_e1_r1_s4', 'uint32_t', 40, 1, 1, 4, 'clustered', tiers=T, timeout=1800)
+FX_D = e2e_fixed('e2e_fixed_i64_n40_e2_r2_uniform', 'int64_t', 40, 2, 2, 2, 'uniform', flt='double', tiers=T, timeout=1800)
+FX_E = e2e_fixed('e2e_fixed_u64_n80_e4_r4_s3', 'uint64_t', 80, 4, 4, 3, 'clustered', flt='double', tiers=T, timeout=1800)
+FX_BIN = e2e_fixed('e2e_fixed_u64_n113_e1_r26_groups', 'uint64_t', 113, 1, 26, 1, 'groups', flt='double', timeout=1800)
+JOBS['C07'] += [FX_A, FX_B, FX_C, FX_BIN]
+JOBS['C01'] += [FX_A, FX_D, FX_E]
+JOBS['C02'] += [FX_BIN, FX_B, FX_D, FX_E]
+# (a symbolic LAST key on top of fixed data - harness switch SYM_LAST - ran out of memory at 14 GB even for n = 24: not a job)
 PROPS['C19'] = dict(level='model_checking', assumptions=MODEL, workers=8,
                     outside=['CompressedPGMIndex and EliasFanoPGMIndex (sdsl sd_vector / select supports: out of memory, see C08/C10)',
                              'the copy/move of std::vector itself: libstdc++ container code is replaced by the model containers, whose copy allocates and whose move steals the buffer',
